@@ -327,6 +327,23 @@ def run_task(task):
         res.evaluations += 1
         check_case(c, case, res)
 
+    if task.get("kind") == "long":
+        # packet-sized and larger strings / byte blocks between integers: nothing in the statement
+        # limits the size of a write
+        try:
+            for L in (253, 254, 255, 256, 64008, 64009, 64010, 70001):
+                text = ("ab\u20acz\u00e9" * (L // 5 + 1))[:L]
+                for ops in ([["short", 64008], ["fixed", text], ["int", 16194277], ["estring", text[::-1]]],
+                            [["char", 252], ["padded", text[: L - 3], L], ["three", 64009], ["epadded", text[: L // 2], L], ["string", "end"]],
+                            [["bytes", (bytes([1, 0xFE, 0xFF, 0]) * (L // 4 + 1))[:L].hex()], ["efixed", text], ["byte", 255]]):
+                    for san in (False, True):
+                        case = {"sanitize": san, "ops": ops}
+                        res.evaluations += 1
+                        check_case(c, case, None)
+                        res.nontrivial(["long", L, san, [o[0] for o in ops]])
+        except Violation as v:
+            res.violation(v)
+        return res
     if hyp.campaign(case_strategy(), oracle, task["n"], task["seed"], res) is not None:
         wrgen.minimise_last_violation(res, in_domain, lambda case: check_case(c, case))
     return res
@@ -335,7 +352,7 @@ def run_task(task):
 def plan(tier, seed):
     total = 20000 if tier == "quick" else 400000
     workers = 16
-    return [{"n": total // workers, "seed": seed * 1000 + w} for w in range(workers)]
+    return [{"n": total // workers, "seed": seed * 1000 + w} for w in range(workers)] + [{"kind": "long"}]
 
 
 def finalize(merged, tier):
